@@ -19,7 +19,7 @@ SHARED_PROPS = {'C01': ['TierC', 'TierC2', 'TierC3', 'TierC4', 'TierC5', 'TierC6
                 'C02': ['C02b'],
                 'C03': ['TierC', 'TierC2', 'TierC3', 'TierC4', 'TierC5'], 'C05': ['C05b'], 'C06': ['C06b'],
                 'C04': ['TierC', 'TierC2', 'TierC3', 'TierC4', 'TierC5'], 'C09': ['TierC3', 'TierC4', 'TierC5', 'TierC6'],
-                'C10': ['C10m', 'TierCM', 'TierCM3', 'TierCM2', 'TierCM2b', 'TierCM2c'], 'C11': ['TierC3'], 'C12': ['TierC6'], 'C13': ['C13p'], 'C17': ['TierC5'], 'C18': ['TierC7'], 'C20': ['C20b']}
+                'C10': ['C10m', 'TierCM', 'TierCM3', 'TierCM2', 'TierCM2b', 'TierCM2c', 'TierCM2d'], 'C11': ['TierC3'], 'C12': ['TierC6'], 'C13': ['C13p'], 'C17': ['TierC5'], 'C18': ['TierC7'], 'C20': ['C20b']}
 
 BASE_TRUSTED = [
     'Coq 8.16.1 kernel (coqc); vm_compute conversion is used to evaluate the model in the correspondence check, '
